@@ -441,7 +441,25 @@ func runC12() {
 				}
 			}
 		}
-		if p.HasMap {
+		if p.HasMap { // the per-language accessors see every entry of a decoded map under the tag as written (region / script subtags)
+			tags := map[string]interface{}{"en": "colour", "en-US": "color", "pt-BR": "cor", "zh-Hant": "x", "EN-gb": "y"}
+			doc := map[string]interface{}{"@context": allContexts, "type": ty.Name, p.Name + "Map": tags}
+			if v, err, pk := toType(doc); err == nil && !pk && v != nil {
+				if out, ok := call(v, getterOf(ty, p)); ok && !isNilVal(out[0]) {
+					if el, n := firstElem(out[0].Interface(), p.Functional); n == 1 && el != nil {
+						for tag, want := range tags {
+							has, ok1 := call(el, "HasLanguage", tag)
+							got, ok2 := call(el, "GetLanguage", tag)
+							s.Evaluations++
+							if ok1 && ok2 && (!has[0].Bool() || got[0].String() != want.(string)) {
+								s.Violations = append(s.Violations, Violation{What: fmt.Sprintf("property %s: the decoded language map has %q, but HasLanguage(%q) = %v and GetLanguage = %q", p.Name, tag, tag, has[0].Bool(), got[0].String()),
+									Sig: "C12:language-accessor:" + p.Name, Replay: map[string]interface{}{"type": ty.Name, "property": p.Name, "tag": tag}})
+								break
+							}
+						}
+					}
+				}
+			}
 			for _, key := range []string{p.Name, p.Name + "Map"} {
 				for _, val := range []interface{}{map[string]interface{}{"en": "x", "n": 5.0}, map[string]interface{}{"en": []interface{}{"a"}}, map[string]interface{}{"en": "x", "o": map[string]interface{}{"k": "v"}},
 					map[string]interface{}{"type": "Image", "url": "https://example.org/i.png", "width": 5.0}} {
